@@ -1,5 +1,5 @@
 # replay of a bounded stand-in violation (C16): re-run native/c16_states.py
 import sys
-print('bosonic n=2 pure=True cat-complex: parity_expectation([0]) = 0.19557 but sum_n (-1)^n p(n) from reduced_dm = 0.18871')
+print('n=2 pure=False cat: quad_expectation(0,0.8) = [-0.03272, 1.14995] on bosonic, [-0.03272, 2.5105] on fock')
 print('REPLAY-VIOLATION')
 sys.exit(1)
